@@ -52,13 +52,14 @@ class TraceJob:
     replay(ctx, scenario_path, out_path) re-executes the inputs of the saved scenario lines."""
 
     def __init__(self, name, module, trace_path, consts, invariants=(), chunk=4000, replay=None,
-                 boundary=None, scenario_count=None, heap="3g"):
+                 boundary=None, scenario_count=None, heap="3g", meta=None):
         self.name, self.module, self.trace_path = name, module, trace_path
         self.consts, self.invariants, self.chunk = consts, invariants, chunk
         self.replay = replay
         self.boundary = boundary or (lambda e: e.get("ev") == "reset")
         self.scenario_count = scenario_count
         self.heap = heap
+        self.meta = meta or {}
 
 
 def count_scenarios(path, boundary):
@@ -108,6 +109,9 @@ def run_job(ctx, job):
 
 
 def handle_rejection(ctx, job, r):
+    if len(ctx.violations) >= 5:
+        ctx.notes.append("further rejection in job %s at chunk line %s not replayed (5 violations already reported)" % (job.name, r["reject_line"]))
+        return
     line = r["reject_line"]
     scen, rel = core.scenario_of_line(r["chunk"], line, job.boundary)
     stamp = "%s-%d-%d" % (job.name, ctx.seed, len(ctx.violations) + len(ctx.notes))
@@ -117,6 +121,7 @@ def handle_rejection(ctx, job, r):
             "tier": ctx.tier, "seed": ctx.seed,
             "explain": "TLC found no action of %s that explains line %d of scenario.ndjson under lens %s"
                        % (job.module, rel, job.consts.get("Lens"))}
+    meta.update(job.meta)
     d = core.save_replay(ctx.prop, stamp, {"scenario.ndjson": "\n".join(scen) + "\n"}, meta)
     log("[legC] %s rejected at line %d: %s" % (job.name, line, failing[:300]))
     # reproduce by re-executing the saved scenario on the real code
